@@ -15,6 +15,12 @@ def x_obligations(tier):
     o += per_part("C03", "C03-walk", M, "walk", tier, only=None if tier == "thorough" else ["", "h/a/x/v1/", "h/s/q1/v1/o/"])
     o += per_part("C03", "C03-untyped", M, "untyped", tier, only=None if tier == "thorough" else ["", "h/a/x/", "h/s/q1/v1/"])
     o += per_part("C03", "C03-missing", M, "missing_key", tier, only=["", "h/a/"], shrink=1)
+    # typed Sids obtained by a query that adds deeper keys in another order than the template's
+    from checks.c02 import QBUILT, QBUILT_T
+    for pre, n, suf in QBUILT if tier == "quick" else QBUILT + QBUILT_T:
+        for fn in ("parent", "walk"):
+            o.append(Obl(f"C03-{fn}[query-built,{pre!r}+{n}+{suf!r}]", M, fn, env={"VF_PRE": pre, "VF_N": str(n), "VF_SUF": suf}, timeout=170 if tier == "quick" else 600,
+                         family="C03-" + fn, bound=f"Sid({pre!r} + t + {suf!r}), every t with len(t) <= {n} without '?' and ':'"))
     # the shipped configuration, skeletons with one symbolic character
     ship = [("hamlet/a/char/", 1, ""), ("hamlet/s/sq01", 1, "/sh0010"), ("hamlet/a/char/x/model/v00", 1, "/w/ma"), ("hamlet/", 1, "")]
     for pre, n, suf in ship:
